@@ -279,6 +279,7 @@ int read_pax_header(sqfs_istream_t *fp, sqfs_u64 entsize,
 	sparse_map_t *sparse_last = NULL, *sparse;
 	sqfs_u64 offset = 0, num_bytes = 0;
 	const struct pax_handler_t *field;
+	bool have_sparse_name = false;
 	size_t diff;
 	long len;
 
@@ -316,6 +317,17 @@ int read_pax_header(sqfs_istream_t *fp, sqfs_u64 entsize,
 		value = ptr;
 
 		field = find_handler(key);
+
+		/*
+		  The name of a GNU sparse member is in GNU.sparse.name. GNU
+		  tar puts a made up name into the header, and if that does
+		  not fit, into a path record that follows the real name.
+		 */
+		if (have_sparse_name && !strcmp(key, "path"))
+			continue;
+
+		if (!strcmp(key, "GNU.sparse.name"))
+			have_sparse_name = true;
 
 		if (field != NULL) {
 			if (apply_handler(out, field, key, value,
